@@ -714,6 +714,45 @@ theorem cut_and_proof_unfloored (maxTTL hardMax now : Int) (soaTtl soaMin : Nat)
   · intro exp h b hb
     exact (proof_unfloored hardMax now maxTTL cut recs exp h).2.2.1 b hb
 
+/-- **An alias that adopts its target's denial is bound by the target's
+request tree** (`additionalAnswer`, terminal-NXDOMAIN branch: `lineage.inherit()`
+even when the sub-query's answer carries no record at all): after the fold the
+outer bound exists and is no later than the sub-query's bound — the lease of
+the chain the target was learned through, or the hard expiry of the cached
+denial that answered it. -/
+theorem adopted_denial_binds_alias (m : Option Int) (c : Int) :
+    ∃ r, (forkInherit m [some c] true).1 = some r ∧ r ≤ c ∧ ∀ b, m = some b → r ≤ b := by
+  unfold forkInherit boundAll
+  simp only [List.foldl_cons, List.foldl_nil, boundCut, if_true]
+  cases m with
+  | none => exact ⟨c, rfl, Int.le_refl _, by intro b hb; cases hb⟩
+  | some b =>
+    simp only
+    split
+    · exact ⟨c, rfl, Int.le_refl _, by intro b' hb'; simp only [Option.some.injEq] at hb'; omega⟩
+    · exact ⟨b, rfl, by omega, by intro b' hb'; simp only [Option.some.injEq] at hb'; omega⟩
+
+example : (forkInherit (some (600 * S)) [some (20 * S)] true).1 = some (20 * S) := by decide
+
+/-- **One refresh per entry**: an entry whose refresh has been claimed does
+not claim another until the claim is released (`CacheEntry.prefetch`), and a
+claim is made only inside the prefetch window — at most `threshold` percent of
+the original TTL left. -/
+theorem prefetch_claim_rules (e : Entry) (threshold : Nat) (now : Int) :
+    e.shouldPrefetch threshold true now = false ∧ e.shouldPrefetch 0 false now = false ∧
+    (e.shouldPrefetch threshold false now = true →
+        threshold ≠ 0 ∧ e.ttlSeconds now ≤ threshold * secs e.ttl / 100) := by
+  refine ⟨by unfold Entry.shouldPrefetch; simp, by unfold Entry.shouldPrefetch; simp, ?_⟩
+  intro h
+  unfold Entry.shouldPrefetch at h
+  by_cases ht : threshold = 0
+  · simp [ht] at h
+  · simp only [ht, decide_false, Bool.or_false, Bool.false_eq_true, if_false, decide_eq_true_eq] at h
+    exact ⟨ht, h⟩
+
+example : ({ stored := 0, ttl := 20 * S } : Entry).shouldPrefetch 50 false (11 * S) = true := by decide
+example : ({ stored := 0, ttl := 20 * S } : Entry).shouldPrefetch 50 false (5 * S) = false := by decide
+
 /-! ## DNS64 -/
 
 theorem negativeAAAATTL_le (hdr mn : Nat) :
